@@ -168,6 +168,8 @@ def check(case, ctx):
                     mid = rng.choice([None, None, 'copy', 'deepcopy', 'index-other', 'newaxis-squeeze', 'fullslice', 'pickle', 'take_axis-other', 'reindex-other', 'arith-self'])
                     gname_ = ",".join(esub)
                     others_ = [d_ for d_ in res.dims if d_ != gname_]
+                    # (a list of bools is a mask, not a list of labels: no selection by label along a False / True axis)
+                    others_ = [d_ for d_ in others_ if res.axes[d_].values.dtype.kind != 'b'] if mid == 'index-other' else others_
                     if mid in ('index-other', 'take_axis-other', 'reindex-other') and not others_:
                         mid = 'copy'
                     if mid == 'arith-self' and (res.values.dtype.kind not in 'iuf' or (res.values.dtype.kind == 'f' and np.isinf(res.values).any())):
